@@ -2,7 +2,7 @@
    extraction and for vm_compute cross-checks. *)
 From Coq Require Import ZArith List Bool Arith Lia.
 From Coq Require Import QArith.
-From RV Require Import Val Syntax Rho Offline Online Sat IA Pastify Jitter Units Support Lexer Parser Elab Dense DenseSem DenseMerge DenseOnlineMerge DenseEval DenseWin DenseVisitor DenseSat Explain ExtZ.
+From RV Require Import Val Syntax Rho Offline Online Sat IA Pastify Jitter Units Support Lexer Parser Elab Dense DenseSem DenseMerge DenseOnlineMerge DenseOnlineFold DenseOnlineWin DenseEval DenseWin DenseVisitor DenseSat Explain ExtZ.
 Import ListNotations.
 
 Definition zformula := @formula ExtZVal.
@@ -85,6 +85,30 @@ Definition run_binrun (op : nat) (bs : list (list (tz * extz) * list (tz * extz)
   match @bin_run_e ExtZVal (bin_f op) ostate0 bs with
   | None => None
   | Some (st, outs) => Some (outs, lbuf st, rbuf st, lout st)
+  end.
+
+(* the unary / fold online operations over stamps with +inf: kind 0 once, 1 historically, 2 not, 3 abs, 4 unary minus, 5 sqrt;
+   result: outputs per call and (fold operations) self.prev *)
+Definition run_onlun (kind : nat) (bs : list (list (tz * extz))) : option (list (list (tz * extz)) * option extz) :=
+  match kind with
+  | O => option_map (fun r => (snd r, Some (fprev (fst r)))) (run_g (@once_update ExtZVal tz) once_init bs)
+  | 1%nat => option_map (fun r => (snd r, Some (fprev (fst r)))) (run_g (@hist_update ExtZVal tz) hist_init bs)
+  | 2%nat => option_map (fun r => (snd r, None)) (run_g (@unary_update ExtZVal tz (@not_fn ExtZVal)) unary_init bs)
+  | 3%nat => option_map (fun r => (snd r, None)) (run_g (@unary_update ExtZVal tz (total_fn ExtZArith Abs)) unary_init bs)
+  | 4%nat => option_map (fun r => (snd r, None)) (run_g (@unary_update ExtZVal tz (total_fn ExtZArith Neg)) unary_init bs)
+  | _ => option_map (fun r => (snd r, None)) (run_g (@unary_update ExtZVal tz (sqrt_fn ExtZArith)) unary_init bs)
+  end.
+(* unbounded since: outputs per call, the two buffers, self.prev, self.last *)
+Definition run_onlsince (bs : list (list (tz * extz) * list (tz * extz))) :=
+  match run_g (@since_update ExtZVal tz tlt) since_init bs with
+  | None => None
+  | Some (st, outs) => Some (outs, s_lbuf st, s_rbuf st, s_prev st, s_last st)
+  end.
+(* bounded once (kind 0) / historically: outputs per call, self.prev (pieces), residual_start, started *)
+Definition run_onlwin (kind : nat) (a b : Z) (bs : list (list (Z * extz))) :=
+  match (match kind with O => @once_timed_run ExtZVal (owin_init a b) bs | _ => @hist_timed_run ExtZVal (hwin_init a b) bs end) with
+  | None => None
+  | Some (st, outs) => Some (outs, w_prev st, w_rs st, w_started st)
   end.
 
 (* explain() on a list of assertions: the table of intervals per input variable *)
